@@ -174,25 +174,28 @@ pub fn set_current_group(group: u32) {
     });
 }
 
-/// Wait until every database thread of `group` (one database instance) has exited. There is
-/// deliberately no timeout: simulated time may run ahead of the work of runnable threads, so a
-/// timeout would encode timing. A thread that never exits shows up through the scheduler's hang
-/// watchdog instead.
-pub fn wait_db_quiescent(group: u32) {
+/// Wait until every database thread of `group` (one database instance) has exited; returns true
+/// then. Returns false if instead the instance became *inert*: some of its threads are left, but
+/// every one of them is blocked for good (nothing runnable, no timer pending) — the state a process
+/// is in when `drop(LocustDB)` has returned while e.g. a background flush waits for a worker that has
+/// already exited. There is deliberately no timeout: simulated time may run ahead of the work of
+/// runnable threads, so a timeout would encode timing.
+pub fn wait_db_quiescent(group: u32) -> bool {
+    use std::sync::atomic::Ordering;
     core::sched();
     let me = core::me();
-    loop {
-        let live = core::with_ctx(|c| {
-            let live = c.live_by_group.get(&group).copied().unwrap_or(0);
-            if live > 0 && !c.quiesce_waiters.contains(&me) {
-                c.quiesce_waiters.push(me);
-            }
-            live
-        });
+    core::QUIESCE_INERT.store(false, Ordering::SeqCst);
+    core::QUIESCE_POLLER.store(me, Ordering::SeqCst);
+    let clean = loop {
+        let live = core::with_ctx(|c| c.live_by_group.get(&group).copied().unwrap_or(0));
         if live == 0 || core::exec_over() {
-            break;
+            break true;
         }
-        core::park_on("quiesce");
-    }
-    core::with_ctx(|c| c.quiesce_waiters.retain(|w| *w != me));
+        if core::QUIESCE_INERT.load(Ordering::SeqCst) {
+            break false;
+        }
+        core::yield_now();
+    };
+    core::QUIESCE_POLLER.store(usize::MAX, Ordering::SeqCst);
+    clean
 }
